@@ -25,7 +25,7 @@ RULE = (
 )
 BOUNDS = {
     "quick": "8 fixtures; regions: parse code + next_parse_offset (5 bytes) of every unit, every 1-byte window of the first sequence header, the C06 quick windows inside picture/fragment/padding units narrowed to 1 byte, the 4 prefix bytes of the first two units, a 6-byte stream prefix, truncation anywhere; default options, plus --show-internal-state / --verbose / --hide slice / --from-offset --to-offset option sets on the parse-info regions of 3 fixtures; declared sizes <= dec.SERDES_BOUNDS",
-    "thorough": "all fixtures; the C06 quick region set at full width (2-byte windows inside data units); 8-byte stream prefix on 2 fixtures; option sets on all parse-info regions of all fixtures",
+    "thorough": "all fixtures; the C06 quick region set, windows inside data units 2 bytes wide on 6 fixtures and 1 byte elsewhere; 8-byte stream prefix on 2 fixtures; option sets on the first 4 parse-info regions and the truncation point of all fixtures",
 }
 OUTSIDE = (
     "regions larger than the bound; streams declaring sizes above the serdes resource bounds; text rendering of symbolic values is "
@@ -53,6 +53,7 @@ OPTION_SETS = [
 ]
 OPTION_FIXTURES = ["hq_min", "ld_frag", "hq_padaux_payload"]
 ALLOWED = (0, 2, 3, 4)
+WIDE_FIXTURES = ["hq_min", "ld_min", "hq_fields", "hq_frag", "hq_padaux_payload", "two_sequences"]  # thorough: full-width windows on these
 QUICK_FIXTURES = ["hq_min", "ld_min", "hq_frag", "ld_frag", "hq_fields", "hq_padaux_payload", "two_sequences", "hq_v3_pics"]
 
 
@@ -72,7 +73,7 @@ def tasks(tier, seed):
         meta = idx[name]
         pis = []
         for label, regions in c06._regions(name, meta, "quick", rnd):  # C06's thorough region set is far beyond this check's budget
-            if quick and not label.startswith("code+npo"):
+            if not label.startswith("code+npo") and (quick or name not in WIDE_FIXTURES):
                 regions = [(s, 1) for (s, n) in regions]  # quick: one-byte windows inside data units
             out.append({"id": "%s/%s" % (name, label), "harness": "region", "args": (name, regions, [])})
             if label.startswith("code+npo"):
@@ -84,7 +85,7 @@ def tasks(tier, seed):
         if name in OPTION_FIXTURES or not quick:
             for oname, argv in OPTION_SETS:
                 out.append({"id": "%s/truncate/%s" % (name, oname), "harness": "truncate", "args": (name, argv)})
-                for label, regions in (pis[:3] if quick else pis):
+                for label, regions in (pis[:3] if quick else pis[:4]):
                     out.append({"id": "%s/%s/%s" % (name, label, oname), "harness": "region", "args": (name, regions, argv)})
     for name in (["hq_min"] if quick else ["hq_min", "ld_frag"]):
         out.append({"id": "%s/stream-prefix" % name, "harness": "region", "args": (name, [(0, 6 if quick else 8)], [])})
